@@ -1160,3 +1160,67 @@ axiom('pdax', 'lemma', 'one-acc-lang', ForAll([_Pp, _P2, _qa, _w, _Sg], Implies(
 def s_one_acc_struct(ev, P, P2, qa): return SV(BOOL, one_acc_b(P.z, P2.z, qa.z))
 @spec('pda_cfg_ok')
 def s_pda_cfg_ok(ev, P): return SV(BOOL, pda_cfg_ok(P))
+
+
+# ====================================================================== Myhill-Nerode distinguishability (C04)
+ListA = sort_of(LIST(ATOM))
+listof = Function('listof', SetA, ListA)        # the enumeration order of a set object (assumption A-list-order: see gvc/symexec.py b_list)
+@spec('listof')
+def s_listof(ev, Sx): return SV(LIST(ATOM), listof(Sx.z))
+distF = Function('dist', DeltaD, SetA, SetA, Atom, Atom, BoolSort())     # (delta, Sigma, F, x, y): some word leads from x and y to states of different acceptance
+_Fz = Const('Fz', SetA)
+axiom('nerode', 'lfp', 'dist-base', ForAll([_d, _S, _Fz, _x, _y], Implies(Select(_Fz, _x) != Select(_Fz, _y), distF(_d, _S, _Fz, _x, _y))))
+axiom('nerode', 'lfp', 'dist-step', ForAll([_d, _S, _Fz, _x, _y, _a], Implies(And(Select(_S, _a), distF(_d, _S, _Fz, Select(_d, mkKey2(_x, _a)), Select(_d, mkKey2(_y, _a)))), distF(_d, _S, _Fz, _x, _y)),
+                                          patterns=[z3.MultiPattern(distF(_d, _S, _Fz, _x, _y), Select(_d, mkKey2(_x, _a)), Select(_d, mkKey2(_y, _a)))]))
+
+
+def dist_least(d, Sg, Fz, Tt):
+    """leastness instance: a relation Tt (on pairs of states) closed under the two rules contains dist"""
+    x, y, a = fresh_z('x', Atom), fresh_z('y', Atom), fresh_z('a', Atom)
+    return Implies(And(ForAll([x, y], Implies(Select(Fz, x) != Select(Fz, y), Select(Tt, mkKey2(x, y)))),
+                       ForAll([x, y, a], Implies(And(Select(Sg, a), Select(Tt, mkKey2(Select(d, mkKey2(x, a)), Select(d, mkKey2(y, a))))), Select(Tt, mkKey2(x, y))))),
+                   ForAll([x, y], Implies(distF(d, Sg, Fz, x, y), Select(Tt, mkKey2(x, y)))))
+
+
+axiom('nerode', 'lemma', 'dist-back', ForAll([_d, _S, _Fz, _x, _y, _v], Implies(And(over(_S, _v), distF(_d, _S, _Fz, dhat(_d, _x, _v), dhat(_d, _y, _v))), distF(_d, _S, _Fz, _x, _y))))
+axiom('nerode', 'lemma', 'dist-of-word', ForAll([_d, _S, _Fz, _x, _y, _v], Implies(And(over(_S, _v), Select(_Fz, dhat(_d, _x, _v)) != Select(_Fz, dhat(_d, _y, _v))), distF(_d, _S, _Fz, _x, _y))))
+axiom('nerode', 'lemma', 'dist-has-word', ForAll([_d, _S, _Fz, _x, _y], Implies(distF(_d, _S, _Fz, _x, _y), Exists([_v], And(over(_S, _v), Select(_Fz, dhat(_d, _x, _v)) != Select(_Fz, dhat(_d, _y, _v)))))))
+axiom('nerode', 'lemma', 'dist-irrefl', ForAll([_d, _S, _Fz, _x], Not(distF(_d, _S, _Fz, _x, _x))))
+axiom('nerode', 'lemma', 'dist-sym', ForAll([_d, _S, _Fz, _x, _y], distF(_d, _S, _Fz, _x, _y) == distF(_d, _S, _Fz, _y, _x)))
+axiom('nerode', 'lemma', 'dist-trans', ForAll([_d, _S, _Fz, _x, _y, _q], Implies(distF(_d, _S, _Fz, _x, _q), Or(distF(_d, _S, _Fz, _x, _y), distF(_d, _S, _Fz, _y, _q)))))
+
+
+@spec('dist')
+def s_dist(ev, D, x, y): return SV(BOOL, distF(dfa_delta_val(D), rec_get(D, 'Sigma').z, rec_get(D, 'F').z, x.z, y.z))
+idxF = Function('index_of', ListA, Atom, Int)       # a position of x in the list (chosen; unique when the list has no repetitions)
+_L = Const('L', ListA)
+def _larr(L): return list_arr(SV(LIST(ATOM), L))
+def _llen(L): return list_len(SV(LIST(ATOM), L))
+axiom('nerode', 'def', 'index_of-choice', ForAll([_L, _x, _i], Implies(And(0 <= _i, _i < _llen(_L), Select(_larr(_L), _i) == _x),
+      And(0 <= idxF(_L, _x), idxF(_L, _x) < _llen(_L), Select(_larr(_L), idxF(_L, _x)) == _x)), patterns=[z3.MultiPattern(idxF(_L, _x), Select(_larr(_L), _i))]))
+TabK = sort_of(TUP(INT, INT)); mkTabK = parts(TUP(INT, INT))[1]
+tabrel = Function('tabrel', ListA, ArraySort(TabK, BoolSort()), RelA)     # pairs of states NOT marked equivalent by the table (or not both in the list)
+_tv = Const('tv', ArraySort(TabK, BoolSort()))
+def _imin(a, b): return If(a <= b, a, b)
+def _imax(a, b): return If(a >= b, a, b)
+def _memL(L, x):
+    i = fresh_z('i', Int); return Exists([i], And(0 <= i, i < _llen(L), Select(_larr(L), i) == x))
+axiom('nerode', 'def', 'tabrel-def', ForAll([_L, _tv, _x, _y], Select(tabrel(_L, _tv), mkKey2(_x, _y)) ==
+      Not(And(_memL(_L, _x), _memL(_L, _y), Select(_tv, mkTabK(_imin(idxF(_L, _x), idxF(_L, _y)), _imax(idxF(_L, _x), idxF(_L, _y))))))))
+
+
+@spec('index_of')
+def s_index_of(ev, L, x): return SV(INT, idxF(L.z, x.z))
+@spec('tabrel')
+def s_tabrel(ev, L, table): return SV(SET(KEY2), tabrel(L.z, map_val(table)))
+@spec('dist_least')
+def s_dist_least(ev, D, Tt): return SV(BOOL, dist_least(dfa_delta_val(D), rec_get(D, 'Sigma').z, rec_get(D, 'F').z, Tt.z))
+# the set of keys of a Boolean table that are marked True (for the termination measure of the table-filling loop)
+TabSet = ArraySort(TabK, BoolSort())
+trues = Function('trues', TabSet, TabSet, TabSet)      # (dom, val)
+_td, _tk = Const('td', TabSet), Const('tk', TabK); _bb = Const('bb', BoolSort())
+axiom('nerode', 'def', 'trues-def', ForAll([_td, _tv, _tk], Select(trues(_td, _tv), _tk) == And(Select(_td, _tk), Select(_tv, _tk))))
+axiom('nerode', 'lemma', 'trues-store', ForAll([_td, _tv, _tk, _bb], trues(Store(_td, _tk, True), Store(_tv, _tk, _bb)) == Store(trues(_td, _tv), _tk, _bb)))
+axiom('nerode', 'lemma', 'trues-empty', ForAll([_tv], trues(z3.K(TabK, False), _tv) == z3.K(TabK, False)))
+@spec('trues')
+def s_trues(ev, table): return SV(SET(TUP(INT, INT)), trues(map_dom(table), map_val(table)))
